@@ -23,13 +23,122 @@ pub struct Case {
     /// requested interval length (time units); shortened so that the expected work stays bounded
     pub tlen: f64,
     pub at_rest: bool,
+    /// > 0: the relaxing class (all modes decay, start at distance O(1) from the steady state); the interval is
+    /// relax_len / (slowest decay rate), i.e. relax_len e-foldings of the slowest mode
+    #[serde(default)]
+    pub relax_len: f64,
+    /// non-empty: complex-valued decoupled linear problem y_k' = (a_k + i w_k) y_k, entries (a, w, Re y0, Im y0),
+    /// dimension 1-2 (`problem` and `y0` are ignored)
+    #[serde(default)]
+    pub cplx: Vec<(f64, f64, f64, f64)>,
+}
+
+/// Order-appropriate work of a linear problem y' = A (y - c) whose solution is known: a method whose error
+/// estimator has order p needs steps of about (tol / |y - c|)^(1/p) / L, never larger than dt_max, so the
+/// number of steps is about the integral of max(L (|y(t) - c| / tol)^(1/p), 1/dt_max) dt (exact flow, 400 samples).
+/// For |y - c| <= 1 this is at most the unit T L tol^(-1/p) + T/dt_max of the property statement.
+/// Start of the tail of a relaxing solution: the earliest time after which the exact solution stays within
+/// 1e-3 tol of the steady state (sampled at 400 points; None if it never does or the tail is shorter than 50
+/// maximal steps). There every error estimate is far below the tolerance, so an order-appropriate controller
+/// takes maximal steps.
+fn tail_start(cp: &Compiled, center: &[f64], y0: &[f64], t0: f64, t_len: f64, tol: f64, dt_max: f64) -> Option<f64> {
+    let n = 400;
+    let h = t_len / n as f64;
+    let mut start = None;
+    for k in (0..=n).rev() {
+        let y = cp.flow_exact(t0, y0, t0 + h * k as f64)?;
+        let d = y.iter().zip(center).map(|(a, b)| (a - b) * (a - b)).sum::<f64>().sqrt();
+        if d <= 1e-3 * tol {
+            start = Some(t0 + h * k as f64);
+        } else {
+            break;
+        }
+    }
+    let ts = start?;
+    if (t0 + t_len - ts) / dt_max >= 50.0 {
+        Some(ts)
+    } else {
+        None
+    }
+}
+
+fn relaxing_work(cp: &Compiled, center: &[f64], y0: &[f64], t0: f64, t_len: f64, l: f64, tol: f64, p: f64, dt_max: f64) -> Option<f64> {
+    let n = 400;
+    let h = t_len / n as f64;
+    let mut w = 0.0;
+    for k in 0..n {
+        let y = cp.flow_exact(t0, y0, t0 + h * (k as f64 + 0.5))?;
+        let d = y.iter().zip(center).map(|(a, b)| (a - b) * (a - b)).sum::<f64>().sqrt();
+        w += h * (l * (d.min(1.0) / tol).powf(1.0 / p)).max(1.0 / dt_max);
+    }
+    Some(w)
 }
 
 pub fn work_unit(solver: SolverKind, t: f64, l: f64, tol: f64, dt_max: f64) -> f64 {
     t * l * tol.powf(-1.0 / solver.est_order()) + t / dt_max
 }
 
+/// the same judgement for a complex-valued state: the field must not change the work
+fn run_complex_case(case: &Case) -> Outcome {
+    use num_complex::Complex64 as C64;
+    let mut o = Obs::new();
+    let solver = case.solver;
+    let comps = case.cplx.clone();
+    let d = comps.len().min(2);
+    let l = comps.iter().take(d).map(|c| (c.0 * c.0 + c.1 * c.1).sqrt()).fold(0.05, f64::max);
+    let dt_max = case.ldt / l;
+    let dt_min = dt_max * 10f64.powf(-case.min_exp);
+    let p = solver.est_order();
+    let t_len = case.tlen.min(o_cap() / (l * case.tol.powf(-1.0 / p))).max(3.0 * dt_max);
+    let cfg = Cfg { solver, t0: case.t0, t_end: case.t0 + t_len, dt_min, dt_max, tol: case.tol };
+    o.label(solver.name());
+    o.label("complex-field");
+    let unit = work_unit(solver, t_len, l, case.tol, dt_max);
+    let mult = match solver {
+        SolverKind::BDF6 => 300.0,
+        SolverKind::BDF2 => 800.0,
+        _ => 100.0,
+    };
+    let budget = (mult * unit + 400.0) as usize;
+    let probe = Rc::new(RefCell::new(Probe { budget, ..Default::default() }));
+    let cc = comps.clone();
+    let rhs = move |_t: f64, y: &[C64], out: &mut [C64]| {
+        for k in 0..y.len() {
+            out[k] = C64::new(cc[k].0, cc[k].1) * y[k];
+        }
+    };
+    let y0: Vec<C64> = comps.iter().take(d).map(|c| C64::new(c.2, c.3)).collect();
+    let run = run_complex(solver, d, &cfg.calls(), &y0, probe.clone(), &rhs, budget + 10);
+    let calls = probe.borrow().calls;
+    o.set("derivative_calls", calls);
+    o.nontrivial = true;
+    match &run.end {
+        End::Done => {}
+        End::Failed(ErrKind::UserError(_)) if probe.borrow().budget_hit => {
+            return o.fail(format!("complex state: loops / too much work: more than {budget} derivative evaluations ({mult} x (T L tol^(-1/p) + T/dt_max) + 400 with T = {t_len:.3}, L = {l:.3}, tol = {:e}, p = {p})", case.tol));
+        }
+        End::Failed(k) => return o.fail(format!("complex state: smooth non-stiff problem with dt_min = 1e-{:.0} dt_max: the solve reported {k:?} after {} points", case.min_exp, run.pts.len())),
+        End::Build(i, k) => return o.fail(format!("valid configuration rejected at builder call {i}: {k:?}")),
+        End::TooManyPoints => return o.fail(format!("more than {budget} points yielded")),
+        End::Budget => return o.fail("budget"),
+        End::Panic(m) => return o.fail(format!("panicked: {m}")),
+    }
+    let pts: Vec<(f64, Vec<f64>)> = run.pts.iter().map(|(t, y)| (*t, y.iter().flat_map(|z| [z.re, z.im]).collect())).collect();
+    let ry0: Vec<f64> = y0.iter().flat_map(|z| [z.re, z.im]).collect();
+    if let Err(m) = check_path(solver, &cfg, 0.0, 2 * d, &ry0, &pts, true) {
+        return o.fail(format!("complex state: stops early or malformed path: {m}"));
+    }
+    if (calls as f64) < t_len / dt_max * 0.999 - 1.0 {
+        return o.fail(format!("only {calls} derivative evaluations for {:.1} maximal steps", t_len / dt_max));
+    }
+    o.set(&format!("ratio_work_complex_{}", solver.name()), calls as f64 / (mult * unit + 400.0));
+    o.pass()
+}
+
 pub fn run_case(case: &Case) -> Outcome {
+    if !case.cplx.is_empty() {
+        return run_complex_case(case);
+    }
     let mut o = Obs::new();
     let Some(cp) = case.problem.compile() else { return o.discard("degenerate problem") };
     if case.y0.len() != cp.dim {
@@ -41,8 +150,12 @@ pub fn run_case(case: &Case) -> Outcome {
     let dt_max = case.ldt / l;
     let dt_min = dt_max * 10f64.powf(-case.min_exp);
     let p = solver.est_order();
-    let cap = o_cap();
+    // the relaxing class costs far less than the unit of the statement (the steps regrow), so it may run 15x longer
+    let cap = o_cap() * if case.relax_len > 0.0 { 15.0 } else { 1.0 };
     let t_len = case.tlen.min(cap / (l * case.tol.powf(-1.0 / p))).max(3.0 * dt_max);
+    if case.relax_len > 0.0 {
+        o.label("relaxing-long");
+    }
     let cfg = Cfg { solver, t0: case.t0, t_end: case.t0 + t_len, dt_min, dt_max, tol: case.tol };
     o.label(solver.name());
     o.label(cp.p.class());
@@ -63,7 +176,19 @@ pub fn run_case(case: &Case) -> Outcome {
     o.set("t_len", t_len);
     o.set("lipschitz", l);
     let probe = Rc::new(RefCell::new(Probe { budget, ..Default::default() }));
-    let rhs = |t: f64, y: &[f64], out: &mut [f64]| cp.f(t, y, out);
+    let tail = match (&case.problem, case.relax_len > 0.0) {
+        (Problem::Lin { center, .. }, true) => tail_start(&cp, center, &case.y0, case.t0, t_len, case.tol, dt_max),
+        _ => None,
+    };
+    let tail_calls = std::cell::Cell::new(0usize);
+    let rhs = |t: f64, y: &[f64], out: &mut [f64]| {
+        if let Some(ts) = tail {
+            if t > ts {
+                tail_calls.set(tail_calls.get() + 1);
+            }
+        }
+        cp.f(t, y, out)
+    };
     let run = run_real(solver, false, cp.dim, &cfg.calls(), &case.y0, probe.clone(), &rhs, budget + 10, 1);
     let calls = probe.borrow().calls;
     o.set("derivative_calls", calls);
@@ -93,6 +218,59 @@ pub fn run_case(case: &Case) -> Outcome {
     if solver.is_bdf() {
         o.set(&format!("ratio_workunit_{}_d{}", solver.name(), cp.dim), calls as f64 / unit);
     }
+    if let (true, Problem::Lin { center, .. }) = (case.relax_len > 0.0, &case.problem) {
+        let Some(w) = relaxing_work(&cp, center, &case.y0, case.t0, t_len, l, case.tol, p, dt_max) else { return o.discard("no exact flow") };
+        o.set("relaxing_work", w);
+        o.set("relax_over_literal", w / unit);
+        // fixed factor per method, 10x the worst ratio measured on the repaired tree over 7e4 relaxing cases
+        // (rk45 5.98, rk23 3.91, adams5 3.65, adams3 2.94, bdf6 9.7, bdf2 29.4: the evaluations per maximal step)
+        let krel = match solver {
+            SolverKind::RK45 => 60.0,
+            SolverKind::RK23 => 40.0,
+            SolverKind::Adams5 => 40.0,
+            SolverKind::Adams3 => 30.0,
+            SolverKind::BDF6 => 100.0,
+            SolverKind::BDF2 => 300.0,
+            _ => 100.0,
+        };
+        let allowed = krel * (w + 50.0);
+        o.set(&format!("ratio_relaxwork_{}", solver.name()), calls as f64 / allowed);
+        if calls as f64 > allowed {
+            return o.fail(format!(
+                "solution relaxing to a steady state over {:.0} e-foldings: {calls} derivative evaluations, more than {krel} x the order-appropriate work {w:.0} (integral of max(L (|y - y*|/tol)^(1/p), 1/dt_max) dt = {:.3} x (T L tol^(-1/p) + T/dt_max); T = {t_len:.2}, L = {l:.3}, tol = {:e}, p = {p}, dt_max = {dt_max:.4})",
+                case.relax_len,
+                w / unit,
+                case.tol
+            ));
+        }
+    }
+    if let Some(ts) = tail {
+        // the relaxed tail: maximal steps, i.e. a fixed number of evaluations per maximal step
+        o.label("relaxed-tail");
+        let steps = (cfg.t_end - ts) / dt_max;
+        // 3x the evaluations per maximal step measured on the repaired tree over 35 000 tails (rk45 6.0, rk23 4.0,
+        // adams5 3.7, adams3 3.0, bdf6 7.1, bdf2 9.6; the same to three digits in every case), plus a constant for the steps it takes to regrow and the multistep restarts
+        let ktail = match solver {
+            SolverKind::RK45 => 18.0,
+            SolverKind::RK23 => 12.0,
+            SolverKind::Adams5 => 12.0,
+            SolverKind::Adams3 => 9.0,
+            SolverKind::BDF6 => 21.0,
+            SolverKind::BDF2 => 30.0,
+            _ => 30.0,
+        };
+        let allowed = ktail * steps + 400.0;
+        let tc = tail_calls.get() as f64;
+        o.set(&format!("ratio_tailwork_{}", solver.name()), tc / allowed);
+        o.set(&format!("ratio_tail_evals_per_maxstep_{}", solver.name()), tc / (steps + 40.0) / ktail);
+        if tc > allowed {
+            return o.fail(format!(
+                "{}: after t = {ts:.3} the exact solution stays within 1e-3 tol of its steady state, yet the remaining {steps:.0} maximal steps took {tc} derivative evaluations (allowed {ktail} per maximal step + 400): the step does not regrow (tol = {:e}, dt_max = {dt_max:.4})",
+                solver.name(),
+                case.tol
+            ));
+        }
+    }
     // estimator-limited?
     let mut prev = cfg.t0;
     let mut limited = false;
@@ -121,9 +299,15 @@ fn strategy(_t: Tier) -> BoxedStrategy<Case> {
         2 => problem_sep().prop_map(|p| (p, false)),
         3 => problem_generic().prop_map(|p| (p, false)),
     ];
-    (proptest::sample::select(&ADAPTIVE[..]), prob, prop_oneof![1 => Just(0.0), 3 => gen::fl(-2.0, 2.0)], gen::fl(0.05, 0.5), gen::fl(6.0, 10.0), gen::logu(-9.0, -3.0), gen::fl(1.0, 10.0))
-        .prop_map(|(solver, ((problem, y0), at_rest), t0, ldt, min_exp, tol, tlen)| Case { solver, problem, y0, t0, ldt, min_exp, tol, tlen, at_rest })
-        .boxed()
+    let plain = (proptest::sample::select(&ADAPTIVE[..]), prob, prop_oneof![1 => Just(0.0), 3 => gen::fl(-2.0, 2.0)], gen::fl(0.05, 0.5), gen::fl(6.0, 10.0), gen::logu(-9.0, -3.0), gen::fl(1.0, 10.0))
+        .prop_map(|(solver, ((problem, y0), at_rest), t0, ldt, min_exp, tol, tlen)| Case { solver, problem, y0, t0, ldt, min_exp, tol, tlen, at_rest, relax_len: 0.0, cplx: vec![] });
+    let relaxing = (proptest::sample::select(&ADAPTIVE[..]), problem_relaxing(), prop_oneof![1 => Just(0.0), 3 => gen::fl(-2.0, 2.0)], gen::fl(0.05, 0.5), gen::fl(6.0, 10.0), gen::logu(-9.0, -3.0), gen::fl(10.0, 60.0))
+        .prop_map(|(solver, (problem, y0, mu), t0, ldt, min_exp, tol, relax_len)| Case { solver, problem, y0, t0, ldt, min_exp, tol, tlen: relax_len / mu, at_rest: true, relax_len, cplx: vec![] });
+    let comp = || (gen::fl(-1.0, 0.5), gen::fl(-3.0, 3.0), gen::fl(-2.0, 2.0), gen::fl(-2.0, 2.0));
+    let complex = (proptest::sample::select(&ADAPTIVE[..]), proptest::collection::vec(comp(), 1..=2), prop_oneof![1 => Just(0.0), 3 => gen::fl(-2.0, 2.0)], gen::fl(0.05, 0.5), gen::fl(6.0, 10.0), gen::logu(-9.0, -3.0), gen::fl(1.0, 10.0)).prop_map(
+        |(solver, cplx, t0, ldt, min_exp, tol, tlen)| Case { solver, problem: Problem::Lin { blocks: vec![], mix: vec![], center: vec![] }, y0: vec![], t0, ldt, min_exp, tol, tlen, at_rest: false, relax_len: 0.0, cplx },
+    );
+    prop_oneof![10 => plain, 2 => relaxing, 1 => complex].boxed()
 }
 
 pub fn run(opts: &Opts) -> i32 {
@@ -131,14 +315,14 @@ pub fn run(opts: &Opts) -> i32 {
     // the crate's own doc examples: y' = y and y' = -y on [0,10], every solver
     for solver in ADAPTIVE {
         for a in [1.0 / 3.0, -1.0] {
-            spec.enumerated.push(Case { solver, problem: Problem::Lin { blocks: vec![(a, 0.0)], mix: vec![0.0; 16], center: vec![0.0] }, y0: vec![1.0], t0: 0.0, ldt: 0.1 * a.abs(), min_exp: 6.0, tol: 1e-5, tlen: 10.0, at_rest: false });
+            spec.enumerated.push(Case { solver, problem: Problem::Lin { blocks: vec![(a, 0.0)], mix: vec![0.0; 16], center: vec![0.0] }, y0: vec![1.0], t0: 0.0, ldt: 0.1 * a.abs(), min_exp: 6.0, tol: 1e-5, tlen: 10.0, at_rest: false, relax_len: 0.0, cplx: vec![] });
         }
         // a solution exactly at rest
-        spec.enumerated.push(Case { solver, problem: Problem::Lin { blocks: vec![(-1.0, 0.0), (-0.5, 1.0)], mix: vec![0.2; 16], center: vec![1.0, -2.0, 0.5] }, y0: vec![1.0, -2.0, 0.5], t0: 0.0, ldt: 0.2, min_exp: 7.0, tol: 1e-6, tlen: 5.0, at_rest: true });
+        spec.enumerated.push(Case { solver, problem: Problem::Lin { blocks: vec![(-1.0, 0.0), (-0.5, 1.0)], mix: vec![0.2; 16], center: vec![1.0, -2.0, 0.5] }, y0: vec![1.0, -2.0, 0.5], t0: 0.0, ldt: 0.2, min_exp: 7.0, tol: 1e-6, tlen: 5.0, at_rest: true, relax_len: 0.0, cplx: vec![] });
     }
     spec.cases = opts.tier.pick(12_000, 400_000);
-    spec.essential = vec![("estimator-limited", 0.2), ("at-rest-or-relaxing", 0.1), ("generic", 0.1), ("bdf2", 0.08), ("rk23", 0.08)];
-    spec.rule = "generated: six adaptive solvers x problem family P incl. solutions at rest / relaxing to a steady state x tolerance 10^[-9,-3] x L dt_max in [0.05,0.5] (L = max of the Lipschitz constant and the forcing frequencies) x dt_min = dt_max 10^-[6,10] x interval length 1-10 (shortened so that T L tol^(-1/p) <= 2e4); the user function counts its calls and enforces the hard budget K (T L tol^(-1/p) + T/dt_max) + 400 (p = 4,2,4,2,6,2 for RK45, RK23, Adams5, Adams3, BDF6, BDF2; K = 100, 100, 100, 100, 300, 800). Oracle: the solve returns without error, ends at the ending time with a C01-valid path, and stays within the budget; at least one evaluation per maximal step. Non-trivial = estimator-limited path (a step below 0.98 dt_max) or the at-rest/relaxing class. Distinct = distinct case JSON.".into();
+    spec.essential = vec![("estimator-limited", 0.2), ("at-rest-or-relaxing", 0.1), ("generic", 0.1), ("bdf2", 0.08), ("rk23", 0.08), ("relaxing-long", 0.1), ("complex-field", 0.05), ("relaxed-tail", 0.03)];
+    spec.rule = "generated: six adaptive solvers x problem family P incl. solutions at rest / relaxing to a steady state x tolerance 10^[-9,-3] x L dt_max in [0.05,0.5] (L = max of the Lipschitz constant and the forcing frequencies) x dt_min = dt_max 10^-[6,10] x interval length 1-10 (shortened so that T L tol^(-1/p) <= 2e4; 3e5 for the long relaxations); the user function counts its calls and enforces the hard budget K (T L tol^(-1/p) + T/dt_max) + 400 (p = 4,2,4,2,6,2 for RK45, RK23, Adams5, Adams3, BDF6, BDF2; K = 100, 100, 100, 100, 300, 800). A sixth of the cases are long relaxations (every mode decays, start at distance O(1) from the steady state, 10-60 e-foldings of the slowest mode); for those the work is also held to K' x the integral of max(L (|y(t)-y*|/tol)^(1/p), 1/dt_max) dt along the exact solution (never more than the unit above; K' = 60, 40, 40, 30, 100, 300), and once the exact solution stays within 1e-3 tol of the steady state (tail of >= 50 maximal steps) the evaluations made at later times are held to K'' per maximal step + 400 (K'' = 18, 12, 12, 9, 21, 30: three times the measured evaluations per maximal step), i.e. the steps must regrow to the maximum once the solution has relaxed. One case in thirteen is a complex-valued decoupled linear problem y_k' = (a_k + i w_k) y_k (dimension 1-2) held to the same budget. Oracle: the solve returns without error, ends at the ending time with a C01-valid path, and stays within the budget; at least one evaluation per maximal step. Non-trivial = estimator-limited path (a step below 0.98 dt_max) or the at-rest/relaxing class. Distinct = distinct case JSON.".into();
     spec.max_shrink_iters = 300;
     run_spec(spec, opts)
 }
